@@ -43,8 +43,10 @@ TEXTS = {
     "C16": dict(technique="Lean 4 theorems on a runtime model + differential correspondence + output oracle",
                 design_ref="DESIGN.md §5 C16",
                 level_text=("Kernel-checked theorems (Properties/C16.lean): exprCnt never exceeds the budget on a normal return (n+1 at the panic), the budget panic is the documented error, "
-                            "the check is the only difference to the unbudgeted step, and termination: with Memoize(false) every parse returns (fuel n+2 suffices) for every grammar incl. nullable loops and left recursion."),
-                level_note=RT_NOTE + " Termination with Memoize(true) is NOT proved: it is false for the unchanged code (finding D15)."),
+                            "the check is the only difference to the unbudgeted step, and TERMINATION UNDER EVERY OPTION COMBINATION: with MaxExpressions(n) every parse returns - Memoize on or off, "
+                            "every template variant, nullable loops, left recursion (C16_terminates_any_options: fuel 2n+2 suffices; measure exprCnt+memoHits, Proofs/TermMemo.lean, Proofs/Hits.lean); "
+                            "the result does not depend on the fuel (C16_result_independent_of_fuel, Proofs/FuelMono.lean), so the budgeted parse is a total function of grammar, options and input."),
+                level_note=RT_NOTE + " The Memoize(true) half became provable with the repair of finding D15 (memo hits are charged); on the pinned tree it was false."),
     "C02": dict(technique="Lean 4 theorems on a runtime model + differential correspondence + position oracle",
                 design_ref="DESIGN.md §5 C02",
                 level_text=("Kernel-checked theorems (Properties/C02.lean): an action runs exactly when its expression matched and then sees pos = match start, text = the input slice "
